@@ -281,6 +281,46 @@ pub fn run(rng: &mut Rng, full: bool, files: &mut Vec<CoqFile>) -> Value {
     if stf.ngoals() > 0 {
         files.push(stf);
     }
+    // ---- SAFT-VRQ Mie viscosity reference, 1-3 components of different (and, sometimes, equal) molar weight: its own copy of
+    // the Chapman-Enskog + Wilke code, evaluated with the effective sigma / epsilon of the Feynman-Hibbs potential (taken
+    // from the public `sigma_eff` / `epsilon_k_eff` of the parameters; their temperature dependence is not modelled)
+    let nq = if full { 24 } else { 6 };
+    for i in 0..nq {
+        let n = [2, 1, 2, 3, 2, 2][i % 6];
+        let mut recs = Vec::new();
+        let mut mws = Vec::new();
+        let fh = rng.below(3); // one Feynman-Hibbs order per mixture (orders cannot be combined)
+        for j in 0..n {
+            let visc = [rng.range(-2.0, 0.0), rng.range(-4.0, -1.0), rng.range(-1.0, 0.0), rng.range(-0.2, 0.0)];
+            let (sigma, eps) = (rng.range(2.7, 3.4), rng.range(25.0, 40.0));
+            // every sixth mixture has two species of equal molar weight
+            let mw = if j == 1 && i % 6 == 4 { mws[0] } else { rng.log_range(2.0, 40.0) };
+            mws.push(mw);
+            let r = SaftVRQMieRecord::new(1.0, sigma, eps, 9.0 + rng.range(0.0, 4.0), 6.0, fh, Some(visc), None, None).unwrap();
+            recs.push(PureRecord::new(Identifier::new(None, Some(&format!("q{j}")), None, None, None, None), mw, r));
+        }
+        let params = Arc::new(SaftVRQMieParameters::from_records(recs, None).unwrap());
+        let eos = Arc::new(SaftVRQMie::new(params.clone()));
+        let x = if n == 1 { vec![1.0] } else { simplex(rng, n) };
+        let temp = rng.range(20.0, 300.0);
+        let ntot = rng.log_range(0.1, 10.0);
+        let moles = Array1::from_vec(x.iter().map(|x| x * ntot).collect()) * MOL;
+        let volume = ntot / 5000.0 * METER.powi::<P3>();
+        let xs = (&moles / moles.sum()).into_value().to_vec();
+        let se = params.sigma_eff(temp).to_vec();
+        let ee = params.epsilon_k_eff(temp).to_vec();
+        let v = eos.viscosity_reference(temp * KELVIN, volume, &moles).unwrap().convert_to(PASCAL * SECOND);
+        let comps: Vec<String> = (0..n).map(|j| format!("({}, {}, {})", dy(mws[j]), dy(se[j]), dy(ee[j]))).collect();
+        let tl = 1e-11 * v.abs();
+        let mut f = CoqFile::new(&format!("tvrq_{i}"));
+        f.goal(
+            &format!("Rabs (visc_ref {} {} [{}] - {}) <= {}", dy(temp), dy_list(&xs), comps.join("; "), dy(v), lit(tl)),
+            "c20_transport",
+            json!({"what": "SaftVRQMie::viscosity_reference [Pa s] (Chapman-Enskog with sigma_eff/epsilon_k_eff + Wilke)", "T": temp, "x": xs,
+                   "molarweight": mws, "sigma_eff": se, "epsilon_k_eff": ee, "impl": v, "tol": tl}),
+        );
+        files.push(f);
+    }
     json!({"states": states_json, "pure_limit": limit_json})
 }
 
